@@ -457,6 +457,9 @@ class BackendProvider(ABC):
 
         # Numeric scalars: tolerant comparison
         if self.is_number(a) and self.is_number(b):
+            if self.is_integer(a) and self.is_integer(b):
+                # integers match only when equal; the tolerance is for real numbers
+                return bool(a == b)
             result = np.isclose(a, b)
             if hasattr(result, 'item'):
                 return bool(result.item())
